@@ -71,7 +71,7 @@ class Handler(Obligation):
         req, extra = self.mkreq(ctx, p)
         fut = start_handler(ip, p, self.svc, self.method, h[self.svc], request(req))
         res, k = run_async(ip, p, fut, budget=0)
-        return {'h': h, 'names': names, 'ret': res, 'log': list(p.log), 'extra': extra}
+        return {'h': h, 'names': names, 'ret': res, 'log': list(p.log), 'extra': extra, 'pulled_lens': list(getattr(p, 'pulled_lens', []))}
 
     def post(self, ip, p, res):
         ctx = ip.ctx
@@ -123,7 +123,12 @@ class Handler(Obligation):
                                  z3.Implies(msgs.n == 0, z3.Or(ri, z3.BoolVal(timer)))))
                 out.append(Claim('without the timer firing the subscription was pulled', timer or len(enq) >= 1))
                 mxs = [e[3].payload[e[3].discr][0] for e in enq]
-                out.append(Claim('C15.b: every pull carries max_messages as u16', z3.And([x.t == res['extra']['mx'] % 65536 for x in mxs] or [True])))
+                mx = res['extra']['mx']
+                out.append(Claim('C15.b: for max_messages >= 1 the limit handed to the subscription never exceeds it (a wrapped or saturated 16-bit value is below it; 0 hands out one message)',
+                                 z3.Implies(mx >= 1, z3.And([x.t <= mx for x in mxs] or [True]))))
+                lens = res.get('pulled_lens') or []
+                if lens:
+                    out.append(Claim('C15.a: the response carries exactly the messages the last pull handed out', msgs.n == lens[-1]))
                 out.append(Cover('returned after waiting for the signal', len(enq) >= 2))
                 out.append(Cover('timer fired'), ) if timer else None
                 out = [o for o in out if o is not None]
@@ -287,6 +292,20 @@ def obligations(ctx, cfg):
     th = TopicHandlers(ctx, 2)
     th.id = 'C10.d-topic-delete-unregisters'
     obs += [sd, th]
+    from props.C14 import PushConfigParse
+    pc = PushConfigParse()
+    pc.id = 'C10.i-push-endpoint'
+    obs.append(pc)
+    from props.C11 import SubscriberHistory
+    sh = SubscriberHistory(ctx)
+    sh.id = 'C10.h-history-subscriber-service'
+    obs.append(sh)
+    # the maps are keyed by the parsed names: names that differ must be different keys (== / Hash / Display agree: C18.c)
+    from props.C18 import Distinct
+    for kind in ('topic', 'subscription'):
+        dn = Distinct(ctx, kind, 4)
+        dn.id = 'C10.g-keys-%s' % kind
+        obs.append(dn)
     from props.races import TopicNamespaceRace, SubscriptionNamespaceRace
     obs += [TopicNamespaceRace(ctx, ['create', 'create']), TopicNamespaceRace(ctx, ['create', 'delete']), TopicNamespaceRace(ctx, ['create', 'get']),
             SubscriptionNamespaceRace(ctx, ['create', 'create']), SubscriptionNamespaceRace(ctx, ['create', 'delete']),
